@@ -52,13 +52,16 @@ Section Typing.
   | T_Rec : forall G fs r, has_fields G fs r -> has_type G (Rec fs) (TRec r)
   | T_Proj : forall G e f r T, has_type G e (TRec r) -> rows_lookup f r = Some T ->
              has_type G (Proj e f) T
-  | T_Tag : forall G t tags, In t tags -> has_type G (Tag t) (TEnum tags)
-  | T_Match : forall G e bs tags T,
-      has_type G e (TEnum tags) -> has_branches G bs T ->
-      (forall t, In t tags -> assoc t bs <> None) ->          (* exhaustive *)
+  | T_Tag : forall G t r, erows_lookup t r = Some None -> has_type G (Tag t) (TEnum r)
+  | T_Variant : forall G t e r A, erows_lookup t r = Some (Some A) -> has_type G e A ->
+                has_type G (Variant t e) (TEnum r)
+  | T_Match : forall G e bs r T,
+      has_type G e (TEnum r) -> has_branches G r bs T ->
+      (forall t p, erows_lookup t r = Some p ->                    (* exhaustive *)
+         find_branch t (match p with Some _ => true | None => false end) bs <> None) ->
       has_type G (Match e bs None) T
-  | T_MatchD : forall G e bs d tags T,
-      has_type G e (TEnum tags) -> has_branches G bs T -> has_type G d T ->
+  | T_MatchD : forall G e bs d r T,
+      has_type G e (TEnum r) -> has_branches G r bs T -> has_type G d T ->
       has_type G (Match e bs (Some d)) T
   | T_Prim : forall G o T, Sg o = Some T -> has_type G (Prim o) T
   | T_AnnT : forall G e T, has_type G e T -> has_type G (AnnT e T) T
@@ -74,10 +77,14 @@ Section Typing.
   | HF_nil : forall G, has_fields G [] RNil
   | HF_cons : forall G f e fs T r, has_type G e T -> has_fields G fs r ->
               has_fields G ((f, e) :: fs) (RCons f T r)
-  with has_branches : ctx -> list (string * tm) -> ty -> Prop :=
-  | HB_nil : forall G T, has_branches G [] T
-  | HB_cons : forall G t b bs T, has_type G b T -> has_branches G bs T ->
-              has_branches G ((t, b) :: bs) T.
+  with has_branches : ctx -> erows -> list (string * option string * tm) -> ty -> Prop :=
+  | HB_nil : forall G r T, has_branches G r [] T
+  | HB_bare : forall G r t b bs T, has_type G b T -> has_branches G r bs T ->
+              has_branches G r ((t, None, b) :: bs) T
+  | HB_arg : forall G r t x b bs A T,
+      erows_lookup t r = Some (Some A) ->          (* the binder has the payload type of its tag *)
+      has_type ((x, A) :: G) b T -> has_branches G r bs T ->
+      has_branches G r ((t, Some x, b) :: bs) T.
 
   Scheme has_type_mut := Minimality for has_type Sort Prop
   with has_types_mut := Minimality for has_types Sort Prop
